@@ -7,6 +7,7 @@ Second tie: the implementation-faithful model Num/AmountImpl.v (int64 wrap + Flo
 result must be the same; inside the domain the guards `num dom_<op>` of the exactness theorems
 (Props/C05.v ..._impl_exact) must hold, so Go = spec = impl there."""
 import itertools
+import subprocess
 from vlib import *
 
 T52 = 2 ** 52
@@ -334,6 +335,14 @@ def run(c):
     if not ok:
         c.report("extraction/oracle build failed: " + out[-800:], {"machinery": "oracle"}, no_input=True)
         return
+    if not quick:
+        # independent re-check of every compiled Props module (whole development) and the axioms of its context
+        build_rocq([])
+        r = subprocess.run([os.path.join(VERIF, "tools", "coqchk")], stdout=subprocess.PIPE, stderr=subprocess.STDOUT, text=True)
+        c.cov["coqchk"] = r.stdout[-1200:]
+        if r.returncode != 0:
+            c.report("coqchk rejected the compiled development or found an axiom outside the allow-list: " + r.stdout[-600:],
+                     {"theorem": "coqchk over rocq/Props/*.vo", "output": r.stdout[-3000:]}, no_input=True)
     cases = gen(c, quick) + gen_boundary(c, quick)
     lines = [l for _, l in cases]
     go = run_go(lines)
